@@ -14,7 +14,8 @@ ASSUMPTIONS = [
     "keyspace list: must contain every keyspace holding an entry and nothing outside the names used; backends may differ in between",
     "quick tier: MemStore on every edge, the SQLite/LMDB backends on every 8th edge (offset by VERIF_SEED); thorough: every edge on all four",
     "random part: seeded sequences of 300-600 calls per backend over 3 keyspaces with arbitrary u64 ids (85 % from a pool of 10 incl. 0, 2^63-1, 2^63, 2^64-1), "
-    "random stamps and payloads up to 40 KB, SQLite file / LMDB reopened three times per run; validated by Trace_Storage.tla (ids, stamps, digests as strings)",
+    "random stamps and payloads up to 40 KB, one bulk write of 400 x 32 KiB per second run (more than the LMDB backend's 10 MiB map takes: a refused bulk write must leave "
+    "exactly the documents it reports as written, also after the reopen that follows), SQLite file / LMDB reopened three times per run; validated by Trace_Storage.tla (ids, stamps, digests as strings)",
     "scratch databases live under /dev/shm (removed at the end)",
 ]
 CONSTS = dict(Keyspaces={1, 2}, Ids={1, 2}, Stamps={1, 2}, Payloads={0, 1})
@@ -51,6 +52,9 @@ def run(ctx):
                                   "--out", trace, "--dir", scratch + "-random"], timeout=3000)
     rst = json.loads(rout.strip().splitlines()[-1])
     tv = vlib.validate_trace(ctx, "Trace_Storage", {}, trace, "trace_random", timeout=3000)
+    refused = sum(1 for line in open(trace) if '"put_failed"' in line)
+    if refused == 0:
+        raise vlib.ToolError("vacuous: no backend refused the oversized bulk write")
     ctx.log("random sequences: %d runs, %d events: trace %s" % (rst["runs"], rst["events"], "accepted" if tv["accepted"] else "REJECTED"))
     if not tv["accepted"]:
         ctx.violations.append({"engine": "h-ec record-storage + Trace_Storage", "why": ["a recorded storage call disagrees with the reference model"],
@@ -62,7 +66,7 @@ def run(ctx):
             continue
         seen.add(key)
         ctx.violations.append(dict(engine="h-ec replay-storage", **v))
-    cov = {"random_runs": rst["runs"], "random_events": rst["events"], "random_trace_accepted": tv["accepted"],
+    cov = {"refused_bulk_writes": refused, "random_runs": rst["runs"], "random_events": rst["events"], "random_trace_accepted": tv["accepted"],
            "states": mc["distinct"], "transitions": mc["generated"], "traces_validated_against_impl": rep["evaluations"] + rst["runs"],
            "samples": rep["samples"][:5], "exhaustive": stride == 1, "edges": rep["edges"], "backends": rep["backends"],
            "persistent_backend_stride": stride, "checker_cmd": mc["cmd"]}
